@@ -53,8 +53,13 @@ Proof. unfold get_client. c14_go; c14_leaf. Qed.
 Lemma authenticated_neg w cr : wp anyR (authenticated w cr) (fun tr oc => has_fault tr = true -> oc = None).
 Proof. unfold authenticated, get_client. c14_go; c14_leaf. Qed.
 
+(* jwt-bearer: a request that names nobody makes no call; one that names a client whose lookup failed
+   is not "not identified" - it is refused *)
+Lemma jwt_bearer_client_neg w cr : wp anyR (jwt_bearer_client w cr) (fun tr oc => has_fault tr = true -> oc = None).
+Proof. unfold jwt_bearer_client, authenticated, get_client. c14_go; c14_leaf. Qed.
+
 Ltac neg_auth :=
-  apply neg_bind_opt; [first [apply authenticated_neg | apply get_client_neg] | reflexivity | intros c].
+  apply neg_bind_opt; [first [apply authenticated_neg | apply get_client_neg | apply jwt_bearer_client_neg] | reflexivity | intros c].
 
 Lemma code_grant_neg w n now r : wp anyR (code_grant w n now r) (Qneg neg_out).
 Proof.
@@ -69,6 +74,11 @@ Qed.
 Lemma cc_grant_neg w n now r : wp anyR (cc_grant w n now r) (Qneg neg_out).
 Proof.
   unfold cc_grant. c14_break; [discriminate|]. neg_auth.
+  unfold Qneg. c14_go; c14_leaf.
+Qed.
+Lemma jwt_bearer_grant_neg w n now r : wp anyR (jwt_bearer_grant w n now r) (Qneg neg_out).
+Proof.
+  unfold jwt_bearer_grant. c14_break; [discriminate|]. neg_auth.
   unfold Qneg. c14_go; c14_leaf.
 Qed.
 Lemma ciba_grant_neg w n now r : wp anyR (ciba_grant w n now r) (Qneg neg_out).
@@ -253,7 +263,7 @@ Proof.
   - apply continue_auth_neg.
   - apply push_auth_neg.
   - apply cc_grant_neg. - apply code_grant_neg. - apply refresh_grant_neg.
-  - intros H; discriminate. - intros H; discriminate.
+  - intros H; discriminate. - apply jwt_bearer_grant_neg.
   - apply ciba_grant_neg.
   - apply introspect_neg.
   - apply wp_bind. eapply wp_mono; [|apply revoke_neg]. cbn. intros tr a Ha. unfold Qneg_op, Qneg_revoke in *.
